@@ -158,8 +158,10 @@ func RunSubC07(spec string) {
 		if ic.lenient {
 			continue
 		}
-		bad, _, _ := buildInvalid(r, ic, c13Positions[r.Intn(len(c13Positions))])
+		bad, sib1, sib2 := buildInvalid(r, ic, c13Positions[r.Intn(len(c13Positions))])
 		pool = append(pool, &c07Type{name: "invalid:" + ic.name, bad: bad})
+		// valid types sharing nested struct types with the invalid definition
+		pool = append(pool, &c07Type{name: "sibling-byvalue:" + ic.name, s: sib1, fresh: true}, &c07Type{name: "sibling-ptr:" + ic.name, s: sib2, fresh: true})
 	}
 	for _, b := range []interface{}{zoo.BadTop{}, zoo.BadTop2{}, zoo.BadB{}, zoo.BadTop3{}, zoo.BadD{}} {
 		pool = append(pool, &c07Type{name: fmt.Sprintf("invalid:%T", b), bad: reflect.TypeOf(b)})
